@@ -1,3 +1,4 @@
+import MpsProps.Anchors.C01
 import Mps.Judge
 import MpsProps.Src.SrcCmpSign
 import MpsProps.Src.SrcCmpPresign
